@@ -111,6 +111,15 @@ def install():
                 dr = getattr(stochastic_path, "drift", None)
                 if dr is not None:
                     rec["drift"] = np.array(dr, dtype=float, copy=True)
+                if getattr(wd, "check_path_reads", False):
+                    # a returned path is read twice before the engine reads it: value() must be a pure read, and the
+                    # parts recorded above must add up to it
+                    v1 = np.array(stochastic_path.value(), dtype=float, copy=True)
+                    v2 = np.array(stochastic_path.value(), dtype=float, copy=True)
+                    parts = rec["diff"] + rec["jump"] + (rec["drift"] if dr is not None else 0.0)
+                    rec["reads"] = {"same": bool(v1.shape == v2.shape and np.array_equal(v1, v2)),
+                                    "adds_up": bool(v1.shape == np.shape(parts) and
+                                                    np.allclose(v1, parts, rtol=1e-12, atol=1e-12 * (1.0 + np.max(np.abs(parts), initial=0.0))))}
             except Exception as e:  # a path object of unknown shape: keep the object itself
                 rec = {"serial": len(wd.samples), "run": wd.run_index, "level": wd.level, "ctx": wd.current.name,
                        "obj": stochastic_path, "err": repr(e)}
